@@ -247,6 +247,10 @@ def laws_counts(L, rng, nb, npatch, auto):
     L.raises(f"{tag}.add-scalar", lambda: a + 1.0)
     for s in SCALARS:
         L.check(f"{tag}.mul", lambda s=s: None if eq_arr((a * s).counts, a.counts * s) and (a * s).auto == auto else f"a*{s!r} differs")
+    # any number numpy calls a scalar is a scalar here too (round 7: results forced into a float64 buffer)
+    import fractions
+    L.check(f"{tag}.mul-fraction", lambda: None if np.array_equal(np.asarray((a * fractions.Fraction(1, 2)).counts, dtype=float), a.counts * 0.5)
+            and np.array_equal(np.asarray((a * fractions.Fraction(-3, 1)).counts, dtype=float), a.counts * -3.0) else "a*Fraction differs")
     L.raises(f"{tag}.mul-bool", lambda: a * True)
     L.check(f"{tag}.eq-reflexive", lambda: None if a == a and a == copy.deepcopy(a) else "a != a")
     pert = copy.deepcopy(a)
@@ -396,6 +400,9 @@ def laws_corrfunc(L, rng, nb, npatch, auto):
     if len(members) > 1:
         fewer = CorrFunc(**{k: v for k, v in cf.to_dict().items() if k != members[-1]})
         L.check(f"{tag}.neq-members", lambda: None if cf != fewer and fewer != cf else "missing member ignored by ==")
+        # operands holding different sets of pair counts are incompatible in either order: no term is dropped silently
+        L.raises(f"{tag}.add-fewer-members-right", lambda: cf + fewer)
+        L.raises(f"{tag}.add-fewer-members-left", lambda: fewer + cf)
     other = gen.gen_corrfunc(rng, nb, npatch + 1, auto, members=members)
     L.raises(f"{tag}.add-other-patches", lambda: cf + other)
     L.raises(f"{tag}.add-other-type", lambda: cf + cf.dd)
